@@ -30,9 +30,12 @@ func WalkWithReporter(logStream, dbStream io.Reader, dateFormat string, pc parse
 	return WithResolvedDatabase(dbStream, pc, rc,
 		func(nl shared.DBNodeMap) error {
 			r := rpCb(rpc, nl)
-			defer r.Flush()
 			f := filter.GetIntervalNodeFilter(fc)
-			return WalkNodesInStream(logStream, dateFormat, pc, f, r)
+			err := WalkNodesInStream(logStream, dateFormat, pc, f, r)
+			if ferr := r.Flush(); err == nil {
+				err = ferr
+			}
+			return err
 		})
 }
 
